@@ -29,7 +29,8 @@ def read_events_for_entries(dfs, d, stamps, eid0, names=None, extract=True):
         if form == 0:
             argv = base + ["type", "--binary", "%s%s.%s" % (d.colon, dch, nm_)]
         elif form == 1:
-            argv = base + ["--drive", d.drive, "--dir", dch, "type", "--binary", nm_]
+            # (a --ui option after them must leave --drive and --dir as they are)
+            argv = base + ["--drive", d.drive, "--dir", dch] + (["--ui", ("acorn", "watford", "opus")[k % 3]] if k % 2 else []) + ["type", "--binary", nm_]
         elif form == 2:
             argv = base + ["--dir", dch, "type", "--binary", d.colon + nm_]              # drive given, directory from --dir
         else:
@@ -48,6 +49,22 @@ def read_events_for_entries(dfs, d, stamps, eid0, names=None, extract=True):
                 data = b""
             ev.append(mk(e, "extract", o.rc if o.rc is not None else -9, 1 if o.err.strip() else 0, data))
         shutil.rmtree(dest, ignore_errors=True)
+        # the same with one of the disc's own directories as the current one: its files are written without prefix, all others
+        # (those of $ included) keep theirs, so equal names in two directories still arrive as two files
+        dirs = sorted({e["dir"] for e in d.entries})
+        if len(dirs) > 1:
+            cur = dirs[-1]
+            os.makedirs(dest, exist_ok=True)
+            o = common.run(base + ["--drive", d.drive, "--dir", chr(cur), "extract-files", dest], timeout=120)
+            for e in d.entries:
+                nm_ = e["name"].decode("latin1")
+                fn = os.path.join(dest, nm_ if e["dir"] == cur else "%c.%s" % (e["dir"], nm_))
+                try:
+                    data = open(fn, "rb").read()
+                except OSError:
+                    data = b""
+                ev.append(mk(e, "extract", o.rc if o.rc is not None else -9, 1 if o.err.strip() else 0, data))
+            shutil.rmtree(dest, ignore_errors=True)
     return ev
 
 
